@@ -488,8 +488,8 @@ REGISTRY = {
     },
     "C14": {
         "corr": lambda tier, seed: corr_merge_results(
-            corr_engine("C14", tier, seed, "restarts,batches,merges,bigvals", 60, 1500, ops=25,
-                        dflags=NOEV, oracle_props=["C14", "C09"], extra="-variants 3"),
+            corr_engine("C14", tier, seed, "restarts,batches,merges,bigvals,hostilesome", 60, 1500, ops=25,
+                        dflags=NOEV, oracle_props=["C14", "C09", "C15", "C01"], extra="-variants 3"),
             corr_iter("C14", tier, seed)),
         "assumptions": ["the engine model has no index type / shard count parameter: every real configuration is compared with the same model run, and the lock-step variants with each other",
                         "byte-identical file layout across sync strategy / I/O type is not proved; layouts are compared with the model (positions, file sizes) in the C17/C11 checks"],
